@@ -24,7 +24,8 @@ def valid_case(rng):
     n_types = rng.choice([1, 1, 2])
     pos = [(1, 1)] + [p for p in gi.core_positions(2)[1:] if rng.random() < 0.3]
     case = gi.random_case(rng, positions=pos, n_types=n_types, gap_model=rng.choice(['flow', 'none', 'no_flow', 'duct_average']),
-                          length=round(rng.uniform(0.08, 0.3), 3), flow_range=(0.3, 6.0), const_props=rng.random() < 0.5)
+                          length=round(rng.uniform(0.08, 0.3), 3), flow_range=(0.3, 6.0), const_props=rng.random() < 0.5,
+                          type_kw=dict(n_duct=rng.choice([1, 2, 2])))
     case['core']['bypass_fraction'] = round(10 ** rng.uniform(-2.5, -1), 5)
     for tn in list(case['types']):
         u = rng.random()
@@ -43,13 +44,13 @@ def valid_case(rng):
     return case
 
 
-FAULTS = ["pins-do-not-fit", "wire-too-thick", "clad-too-thick", "zero-pin-pitch", "negative-pin-diameter", "zero-duct-ftf",
+FAULTS = ["duct-zero-wall", "pins-do-not-fit", "wire-too-thick", "clad-too-thick", "zero-pin-pitch", "negative-pin-diameter", "zero-duct-ftf",
           "duct-ge-pitch", "unequal-outer-ducts", "axial-regions-overlap", "axial-region-inverted", "missing-bc", "negative-flowrate",
           "unknown-material", "unknown-correlation", "negative-power", "power-gap-between-cells", "power-wrong-pin-count",
           "flow-gap-no-bypass", "zero-core-length", "odd-duct-values", "zero-step-request"]
 
 
-GEOMETRY_FAULTS = ["wire-too-thick", "clad-too-thick", "zero-pin-pitch", "negative-pin-diameter", "zero-duct-ftf", "odd-duct-values"]
+GEOMETRY_FAULTS = ["duct-zero-wall", "wire-too-thick", "clad-too-thick", "zero-pin-pitch", "negative-pin-diameter", "zero-duct-ftf", "odd-duct-values"]
 
 
 NEAR_FAULTS = ["wire-too-thick", "clad-too-thick", "duct-ge-pitch", "pins-do-not-fit"]
@@ -82,6 +83,18 @@ def inject(rng, case, fault, lowfid=False, near=False, excess=0.01):
         t['pin_pitch'] = 0.0
     elif fault == "negative-pin-diameter":
         t['pin_diameter'] = -abs(t['pin_diameter'])
+    elif fault in ("duct-zero-wall",):
+        # any of the ducts, preferably not the first one: (inner, outer) flat-to-flat of duct d are entries 2d, 2d+1
+        # (a pair given as (outer, inner) is NOT a fault: the reader documents that it infers which is which)
+        nd = len(t['duct_ftf']) // 2
+        d = nd - 1 if rng.random() < 0.7 else rng.randrange(nd)
+        if fault == "duct-zero-wall":
+            t['duct_ftf'][2 * d + 1] = t['duct_ftf'][2 * d]
+        else:
+            t['duct_ftf'][2 * d], t['duct_ftf'][2 * d + 1] = t['duct_ftf'][2 * d + 1], t['duct_ftf'][2 * d]
+        if d == nd - 1:      # keep the outer ducts of all types equal so that this stays a single fault
+            for t2 in c['types'].values():
+                t2['duct_ftf'][-1] = t['duct_ftf'][-1]
     elif fault == "zero-duct-ftf":
         t['duct_ftf'][0] = 0.0
     elif fault == "duct-ge-pitch":
@@ -231,7 +244,7 @@ def search_fault(ctx, rng, fault, tries=40):
     return False
 
 
-MODELLED = {"pins-do-not-fit", "wire-too-thick", "clad-too-thick", "zero-pin-pitch", "negative-pin-diameter", "zero-duct-ftf",
+MODELLED = {"duct-zero-wall", "pins-do-not-fit", "wire-too-thick", "clad-too-thick", "zero-pin-pitch", "negative-pin-diameter", "zero-duct-ftf",
             "duct-ge-pitch", "unequal-outer-ducts", "missing-bc", "negative-flowrate", "flow-gap-no-bypass", "zero-core-length",
             "odd-duct-values"}
 
